@@ -3,7 +3,7 @@ CONSTANTS
   K = 3
   N = 3
   NN = 2
-  MaxCat = 2
+  MaxCat = 1
   NMsgs = 12
   Caps = {32, 33, 64, 4096, 8192}
   MaxCuts = 1
